@@ -115,6 +115,11 @@ func c02Repeat(useShipped bool) func(t *rapid.T) {
 		if useShipped && (opt.Limit > 200 || opt.Limit < 0) {
 			opt.Limit = 25
 		}
+		if !useShipped {
+			// only ONE of the two copies is asked other things first (incl. the same query
+			// under other limits/options): the answer must not depend on a database's past
+			warmUp(t, db, cmds, q, opt)
+		}
 		first := rank(db, db.SearchUniversal(q, opt))
 		reps := 6
 		if useShipped {
